@@ -1280,13 +1280,6 @@ func (e *Engine) aliasTarget(st *State, r ast.Expr) *keyInfo {
 		}
 		// n := len(v) names the length only while v keeps its value: if v is assigned again later, n is a number
 		// of its own (facts about it must survive the change of v)
-		if len(x.Args) == 1 {
-			if id, ok := ast.Unparen(x.Args[0]).(*ast.Ident); ok {
-				if o := objOf(e.Info, id); o != nil && !e.P.neverReassigned(o) {
-					return nil
-				}
-			}
-		}
 	default:
 		return nil
 	}
@@ -1328,12 +1321,48 @@ func (e *Engine) setAlias(st *State, l ast.Expr, target *keyInfo) *State {
 			}
 		}
 	}
+	soft := e.softAlias(target)
 	ak := keyInfo{Key: "val:" + e.objKey(obj), Objs: append([]types.Object{obj}, target.Objs...), Fields: target.Fields, Heap: target.Heap, OK: true}
 	t := *target
-	if n := e.update(st, ak, func(f *Fact) { f.Alias = &t }); n != nil {
+	if n := e.update(st, ak, func(f *Fact) {
+		f.Alias = &t
+		if soft {
+			f.Tags = []string{"soft"}
+		}
+	}); n != nil {
 		return n
 	}
 	return st
+}
+
+// softAlias: n := len(v) (or len(v)-k) while v is assigned again later. The name is remembered (SoftKey) but facts
+// about n are kept under n itself, so that they survive the change of v.
+func (e *Engine) softAlias(target *keyInfo) bool {
+	if !strings.HasPrefix(target.Key, "len(") && !strings.HasPrefix(target.Key, "cap(") && !strings.HasPrefix(target.Key, "(len(") {
+		return false
+	}
+	for _, o := range target.Objs {
+		if !e.P.neverReassigned(o) {
+			return true
+		}
+	}
+	return false
+}
+
+// SoftKey: the path a variable was defined as (hard or soft alias), if that definition still holds.
+func (e *Engine) SoftKey(st *State, x ast.Expr) (string, bool) {
+	id, ok := ast.Unparen(x).(*ast.Ident)
+	if !ok {
+		return "", false
+	}
+	o := objOf(e.Info, id)
+	if o == nil {
+		return "", false
+	}
+	if a := st.facts["val:"+e.objKey(o)]; a != nil && a.Alias != nil {
+		return a.Alias.Key, true
+	}
+	return "", false
 }
 
 func (e *Engine) assign(lhs, rhs []ast.Expr, tok token.Token, stmt ast.Stmt, in []*State) []*State {
